@@ -2,6 +2,7 @@
 //! vcheck: bounded exhaustive exploration of meshless_voronoi (see /verif/DESIGN.md).
 
 mod alpha;
+mod bigint;
 mod checks;
 mod obs;
 mod oracle;
